@@ -140,6 +140,9 @@ first_missed.update({
     "C06-r8m2": "sparse matrices were rebuilt from dense values for every update, so the sparsity structure always followed the couplings",
     "C08-r8m1": "no mesh came near 65535 dofs (the dense reference of the option product does not scale; a sparse-judged part was added)",
 })
+first_missed.update({
+    "C12-r9m2": "the largest mesh had 4 200 elements: nothing beyond 65536 elements (size thresholds inside the operators)",
+})
 print("| id | defect (needs) | caught by (quick tier) | first evaluation |")
 print("|---|---|---|---|")
 for f in sorted(glob.glob(os.path.join(HERE, "seeded", "*", "meta.json"))):
